@@ -4,7 +4,7 @@
    the occupancy split, the serial wrap, and "no made-up value".  The refinement read_pdb (render recs) = denote recs is
    established by correspondence only (see the level note). *)
 From Coq Require Import List Ascii String ZArith QArith Bool Lia.
-From PV Require Import Base.Sx Base.Text Base.Float Base.Group Spec.Hier Spec.PdbSpec Model.AddAtom Model.PdbLex Model.PdbParse.
+From PV Require Import Base.Sx Base.Text Base.Float Base.Group Spec.Hier Spec.PdbSpec Model.AddAtom Model.PdbLex Model.PdbParse Proofs.Decimal Proofs.C01just.
 Import ListNotations.
 
 (* 1. inside a model: exactly one chain per chain id, in order of first appearance (and likewise one residue per key, one
@@ -60,8 +60,21 @@ Proof.
   assert (existsb (fun d => fails_level (d_level d) level) ds' = true) by (apply existsb_exists; now exists d). congruence.
 Qed.
 
+(* 6. layout of a field: a value standing anywhere inside its columns (any justification, any padding) is read as the value *)
+Theorem C01_field_justification : forall v k j, tight v -> trim (blanks k ++ v ++ blanks j) = v.
+Proof. exact trim_justified. Qed.
+(* 7. the integers written in a field are the integers read (serial numbers, residue numbers, model numbers) *)
+Theorem C01_unsigned_field_reads_back : forall n, (0 <= n <= max_usize)%Z -> parse_usize (show_Zpos n) = Some n.
+Proof. exact usize_reads_back. Qed.
+Theorem C01_signed_field_reads_back : forall n, (min_isize <= n <= max_isize)%Z ->
+  parse_isize (if (n <? 0)%Z then "-"%char :: show_Zpos (- n) else show_Zpos n) = Some n.
+Proof. exact isize_reads_back. Qed.
+
 Print Assumptions C01_one_chain_per_id.
 Print Assumptions C01_occupancy_split_adds_up.
 Print Assumptions C01_wrap_continues.
 Print Assumptions C01_defaulted_field_rejects.
 Print Assumptions C01_failing_diagnostic_rejects.
+Print Assumptions C01_field_justification.
+Print Assumptions C01_unsigned_field_reads_back.
+Print Assumptions C01_signed_field_reads_back.
